@@ -460,7 +460,10 @@ class DAE:
         Reset array sizes to zero and clear all arrays.
         """
 
-        self.set_t(0.0)
+        # same as a newly created DAE: a negative time means "before the dynamic initialization".
+        # Models such as PQ switch equations on `dae_t < 0`, and `TDS.run` decides between
+        # initializing and resuming on it.
+        self.set_t(-1.0)
         self.m = 0
         self.n = 0
         self.o = 0
